@@ -67,6 +67,7 @@ Ltac eq_solve_with tac :=
   | |- bind _ _ = bind _ _ => apply bind_cong; [| intros ?]
   | |- seg _ _ = seg _ _ => f_equal
   | |- rewrap _ _ = rewrap _ _ => f_equal
+  | |- rewrap_path _ = rewrap_path _ => f_equal
   | |- map_err _ _ = map_err _ _ => f_equal
   | |- Ok _ = Ok _ => f_equal
   | |- mapMi _ _ _ = mapMi _ _ _ => apply mapMi_cong; intros ? ?
